@@ -78,6 +78,10 @@ Next == \/ \E b \in BOOLEAN : Open(b)
         \/ Flush \/ CompReflect \/ CloseLock \/ CloseFlusherJoined \/ CloseJoin \/ CloseRelease
         \/ \E n \in 2..MaxTables : CompStart(n) \/ Compact(n)
 Spec == Init /\ [][Next]_vars
+\* Close terminates: once Close has taken the lock, the handle gets closed - provided the flusher, the compactor's reflect and the steps of Close itself
+\* are not starved (weak fairness suffices in the bounded model: the compactor can start only MaxCycles cycles)
+FairSpec == Spec /\ WF_vars(CloseFlusherJoined) /\ WF_vars(CloseJoin) /\ WF_vars(CloseRelease) /\ WF_vars(CompReflect)
+CloseTerminates == (phase = "locking") ~> (phase = "closed")
 HandlesBounded == phase \in {"open", "locking"} => handles <= tables + K
 ClosedReleasesAll == phase = "closed" => handles = 0 /\ threads = 0
 NoGrowthWithCycles == handles <= MaxTables + K
